@@ -83,7 +83,7 @@ fuzz_target!(|data: &[u8]| {
     let case = JsonCase { t, v };
     let out = oracle_json(&case);
     if out.is_fail() && !out.sig.ends_with("-empty-vector") && !out.sig.ends_with("-empty-named-tuple") {
-        eprintln!("VIOLATION-CASE {}", serde_json::to_string(&case).unwrap());
+        eprintln!("VIOLATION-CASE json {}", serde_json::to_string(&case).unwrap());
         panic!("C13 violation: {} {}", out.sig, out.msg);
     }
 });
